@@ -318,6 +318,25 @@ def ob_ops(Ne, nPg, dim, seed):
         np.add(fa, fa, out=out)
         n += 1
         same(out, a + a, "ufunc add with out=", rank=r)
+    # ufuncs with several outputs: every output is the per-(e,p) result and a FeArray
+    for r in (0, 1, 2):
+        a = _rand(rng, (Ne, nPg) + _tensor_shapes(dim, r))
+        b = _rand(rng, (Ne, nPg) + _tensor_shapes(dim, r))
+        fa, fb = FeArray.asfearray(a), FeArray.asfearray(b)
+        cases = [("divmod field-field", lambda: np.divmod(fa, fb), np.divmod(a, b)), ("divmod field-scalar", lambda: np.divmod(fa, 3.0), np.divmod(a, 3.0)),
+                 ("divmod scalar-field", lambda: np.divmod(7.0, fa), np.divmod(7.0, a)), ("modf", lambda: np.modf(fa / 3), np.modf(a / 3)), ("frexp", lambda: np.frexp(fa), np.frexp(a))]
+        for label, call, want in cases:
+            try:
+                got = call()
+            except Exception as ex:
+                fail(f"ufunc {label}: raises {type(ex).__name__}: {ex} (rank {r})", rank=r)
+            n += 1
+            if not (isinstance(got, tuple) and len(got) == len(want)):
+                fail(f"ufunc {label}: returns {type(got).__name__}, expected a tuple of {len(want)} outputs", rank=r)
+            for k_, (g_, w_) in enumerate(zip(got, want)):
+                same(g_, w_, f"ufunc {label} output {k_}", rank=r)
+                if not isinstance(g_, FeArray):
+                    fail(f"ufunc {label}: output {k_} is not a FeArray", rank=r)
     # products: @, dot, ddot, T
     for r1, r2 in [(1, 1), (2, 2), (1, 2), (2, 1), (2, 4), (4, 2), (4, 1), (3, 1), (1, 3), (3, 2)]:
         a = _rand(rng, (Ne, nPg) + _tensor_shapes(dim, r1))
